@@ -5,6 +5,7 @@
 package harness
 
 import (
+	"encoding/json"
 	"fmt"
 	"math"
 	"os"
@@ -399,6 +400,7 @@ func TypeName(v r.Element) string {
 // Run - instrumented execution of a main-module source (same steps as Interpreter.Execute,
 // spelled out with the public API so the raw error and the VM stay available).
 func Run(src string, opts Opts) *Outcome {
+	trackCurrent(src, opts.Modules)
 	o := &Outcome{}
 	pr := Parse(src, opts.ParseTicks)
 	o.Ticks = pr.Ticks
@@ -500,6 +502,7 @@ func RunProgram(program *syntax.Program, opts Opts) *Outcome {
 
 // RunCLI - CLI-faithful execution: Interpreter.LoadScript(...).Execute(inputs)
 func RunCLI(src string, inputs map[string]r.Element, evalTicks int64) *Outcome {
+	trackCurrent(src, nil)
 	o := &Outcome{}
 	if inputs == nil {
 		inputs = r.ElementMap{}
@@ -540,3 +543,25 @@ func RunCLI(src string, inputs map[string]r.Element, evalTicks int64) *Outcome {
 	}
 	return o
 }
+
+// trackCurrent - when VERIF_TRACK is set, remember the case about to run in a side file so
+// that a Go fatal error (stack exhaustion, concurrent map write), which cannot be recovered
+// in-process, can be attributed to its input by the driver
+func trackCurrent(src string, modules map[string]string) {
+	if trackPath == "" {
+		return
+	}
+	doc := map[string]any{"src": src}
+	if len(modules) > 0 {
+		doc["modules"] = modules
+	}
+	b, _ := json.Marshal(doc)
+	os.WriteFile(trackPath, b, 0o644)
+}
+
+var trackPath = func() string {
+	if os.Getenv("VERIF_TRACK") == "" || os.Getenv("VERIF_OUT") == "" {
+		return ""
+	}
+	return os.Getenv("VERIF_OUT") + "/current-" + os.Getenv("VERIF_SHARD") + "-" + fmt.Sprint(os.Getpid()) + ".json"
+}()
